@@ -93,7 +93,7 @@ def build(rng, stratum):
         prog.append(["mem", m, t_mem])
         prog.append(["write", m, data, en])
         nread = rng.randint(1, 4)
-        kinds = rng.sample(["proj", "arith", "cmp", "alias", "lamp"], k=min(nread, 5))
+        kinds = rng.sample(["proj", "arith", "cmp", "alias", "lamp", "addsame", "addsame"], k=min(nread, 5))
         for kd in kinds:
             nm = "r%d" % k
             k += 1
@@ -103,6 +103,13 @@ def build(rng, stratum):
                 prog.append(["sig", nm, ["p", ["b", rng.choice(["+", "*", "-"]), ["r", m], ["n", rng.randint(2, 9)]], types.fresh()]])
             elif kd == "cmp":
                 prog.append(["sig", nm, ["p", ["c", rng.choice(CMP_OPS), ["r", m], ["n", rng.randint(-3, 9)]], types.fresh()]])
+            elif kd == "addsame":
+                # the cell's value plus a declared input ON THE CELL'S OWN SIGNAL TYPE (read after the write)
+                same = "w%d" % k
+                prog.append(["input", same, t_mem, rng.randint(1, 9)])
+                edges[same] = [0, 1, 5, -3, 120]
+                e_ = ["b", "+", ["r", m], ["v", same]] if rng.random() < 0.5 else ["b", "+", ["v", same], ["r", m]]
+                prog.append(["sig", nm, ["p", e_, types.fresh()] if rng.random() < 0.5 else e_])
             elif kd == "alias":
                 prog.append(["sig", nm, ["r", m]])
             else:
